@@ -11,6 +11,7 @@ static Fault LoadFault(const js::J& f) {
   ft.by_signal = f["signal"].boolean(false);
   ft.bad_depfile = f["baddep"].boolean(false);
   ft.trim_depfile = f["trimdep"].boolean(false);
+  ft.depfile_dir = f["depdir"].boolean(false);
   return ft;
 }
 
@@ -81,6 +82,7 @@ bool LoadScenario(const js::J& j, Scenario* s, string* err) {
     else if (k == "rm") op.kind = Op::kRm;
     else if (k == "write") op.kind = Op::kWrite;
     else if (k == "mkdir") op.kind = Op::kMkdir;
+    else if (k == "epoch") op.kind = Op::kEpoch;
     else if (k == "rmlog") op.kind = Op::kRmLogRecord;
     else if (k == "duplog") op.kind = Op::kDupLogRecord;
     else if (k == "dupdeps") op.kind = Op::kDupDepsRecord;
